@@ -245,6 +245,42 @@ pub fn hostile_messages_x(tier: &str, seed: u64) -> Vec<(Vec<u8>, String, Option
             }
         }
     }
+    // overlapping owner names: the owner of the second record is a pointer into the first record's
+    // RDATA, to a label whose bytes run over the pointer itself and end on its first byte, its second
+    // byte, or the byte after it (the record's TYPE, whose high byte 0 then terminates the name). The
+    // cursor must still resume two bytes after the owner's start, and further records must be found.
+    for p in 1..7usize {
+        for t in 0..p {
+            for end_at in [p, p + 1, p + 2] {
+                if end_at < t + 1 { continue; }
+                let l = end_at - (t + 1);
+                if l == 0 || l > 63 { continue; }
+                for (third, qd) in [(false, false), (true, false), (false, true)] {
+                    let mut m = vec![0u8, 9, 0x80, 0, 0, qd as u8, 0, 2 + third as u8, 0, 0, 0, 0];
+                    if qd { m.extend_from_slice(&[1, b'q', 0, 0, 1, 0, 1]); }
+                    // record 1: root owner, NULL, RDATA = p filler bytes with a length byte at t
+                    m.extend_from_slice(&[0, 0, 10, 0, 1, 0, 0, 1, 44, 0, p as u8]);
+                    let base = m.len();
+                    let mut rd = vec![0x61u8; p];
+                    rd[t] = l as u8;
+                    m.extend_from_slice(&rd);
+                    // record 2: owner = pointer to base + t, then A / IN / TTL 60 / 4 bytes
+                    m.extend_from_slice(&[0xC0, (base + t) as u8, 0, 1, 0, 1, 0, 0, 0, 60, 0, 4, 127, 0, 0, 1]);
+                    let owner_at = m.len() - 16;
+                    if third { m.extend_from_slice(&[0xC0, (base + t) as u8, 0, 16, 0, 1, 0, 0, 0, 7, 0, 2, 1, b'z']); }
+                    // what an RFC 1035 reader sees: the owner is whatever the independent decoder obtains at
+                    // the pointer; when it obtains a name, the three records are well-formed and must be read
+                    let want = walker::decode_name(&m, owner_at).map(|(labels, _)| {
+                        let n = format!("n {}{}", labels.len(), labels.iter().map(|l| format!(" {}", text::hex(l))).collect::<String>());
+                        format!("P 9 32768 0 0 o0 {} {} n 0 1 300 0 U 10 {} {} 1 60 0 F 1 1 i 2130706433{} 0 0",
+                            if qd { "1 n 1 x71 1 1 0" } else { "0" }, 2 + third as u8, text::hex(&rd), n,
+                            if third { format!(" {} 1 7 0 F 16 1 s 1 x7a", n) } else { String::new() })
+                    });
+                    v.push((m, "overlapping-owner".to_string(), want));
+                }
+            }
+        }
+    }
     v
 }
 
@@ -340,6 +376,9 @@ pub fn c05(tier: &str, seed: u64) -> Vec<Case> {
 pub fn c11(tier: &str, seed: u64) -> Vec<Case> {
     let mut v = vec![];
     let mut inputs = hostile_messages(tier, seed ^ 0x1111);
+    // encodings that break a structural rule of some record type: rejected today; should a parser ever
+    // accept one, the accepted value must still survive re-serialisation
+    for (b, rule) in crate::props::rfc::rule_breakers(tier == "thorough", seed ^ 0x2222) { inputs.push((b, format!("rule-breaker:{}", rule))); }
     // every header word on a message with one question
     let mut r = Rng::new(seed);
     for w in (0..=65535u32).step_by(if tier == "thorough" { 1 } else { 37 }) {
